@@ -113,6 +113,19 @@ def error_code_rule(ctx, prog):
             continue
         raw = sorted({ret_site(F, st)[0] + " after " + str(st.mon.get("failed")) for st, rv in res.exits
                       if st.mon.get("failed") and str(st.mon.get("failed")).split("@")[-1].startswith(F.name + ":") and rv == fs(-1)})
+        # ... and as the -errno of that very call: no other code is substituted (the one documented exception is redirect_parent, which
+        # answers "the parent has no such stream" with the closed-pipe code so that its caller falls back to the null device)
+        other = []
+        if F.name != "redirect_parent":
+            for st, rv in res.exits:
+                fl = str(st.mon.get("failed") or "")
+                ev_ = st.mem.get(("g", "errno"))
+                if ev_ is not None and all_neg(rv) and not any(isinstance(a, tuple) for a in ev_):
+                    want = I.arith("-", fs(0), ev_)
+                    if rv != want and not rv <= want:
+                        other.append("%s: returns %s, errno %s" % (ret_site(F, st)[0], show(rv)[:30], show(ev_)[:30]))
+        ctx.ob("C04.E1d", F.name, "the negative code returned after a failed system call is the negation of the errno that call left "
+               "(the real cause reaches the caller of start)", not other, {"substituted": sorted(set(other))[:3]}, nontrivial=True)
         n += 1
         ctx.ob("C04.E1c", F.name, "a failed system call is reported as -errno, not as the raw -1 the call returned (start would pass that "
                "on as the error code EPERM instead of the real cause)", not raw, {"raw_minus_one_returned_at": raw[:3]}, nontrivial=True)
@@ -196,6 +209,9 @@ def check(ctx):
                    nontrivial=True)
         else:
             ctx.ob("C04.E5x", site, "start returns a negative error, 0 (in child) or 1 (started)", False, {"returns": show(rv)})
+    # what is launched is what was asked for: validation does not quietly drop a working directory start would have to fail on (C13.A2k)
+    from . import c13
+    c13.check_parse_options(ctx, prog, None)
     # the program looked up is the requested one as it resolves now (the prefix comes from a getcwd() of this very start: C03.P4g)
     from . import c03
     c03.fresh_cwd_rule(ctx, prog)
